@@ -2,10 +2,12 @@ package main
 
 import (
 	"fmt"
+	"go/ast"
 	"go/constant"
 	"go/token"
 	"go/types"
 	"math/big"
+	"strconv"
 	"strings"
 
 	"golang.org/x/tools/go/ssa"
@@ -160,9 +162,24 @@ func (x *Exec) execInstr(fr *Frame, st *State, ins ssa.Instruction) error {
 		}
 		iv, err := x.makeIface(st, v, ins.X.Type())
 		if err != nil {
-			return err
+			if pv, ok := v.(PtrV); ok && len(pv.Path) > 0 {
+				// an interior pointer has no term representation: the interface value is opaque (non-nil); models that
+				// look through the MakeInterface instruction (binary.Read) still see the pointer itself
+				iv = x.C.Fresh("iface_interior", SIface)
+				x.C.Assume(Not(Eq(iv, x.C.zeroOfSort(SIface, nil))), "interface holding an interior pointer is not nil")
+				x.C.Note("interior pointer stored in an interface: opaque interface value")
+			} else {
+				return err
+			}
 		}
-		fr.Env[ins] = TV{T: x.C.Name(ins.Name(), iv), Typ: ins.Type()}
+		named := x.C.Name(ins.Name(), iv)
+		if x.ifaceOrigin == nil {
+			x.ifaceOrigin = map[string]ifaceOrg{}
+		}
+		if _, isIface := ins.X.Type().Underlying().(*types.Interface); !isIface {
+			x.ifaceOrigin[named.S] = ifaceOrg{Typ: ins.X.Type(), Val: v}
+		}
+		fr.Env[ins] = TV{T: named, Typ: ins.Type()}
 		return nil
 	case *ssa.TypeAssert:
 		return x.typeAssert(fr, st, ins)
@@ -860,23 +877,54 @@ func (x *Exec) makeSlice(fr *Frame, st *State, ins *ssa.MakeSlice) error {
 	if x.allocBound != nil {
 		if _, isConst := cp.Const(); !isConst {
 			// contract option `opt alloc=<expr>`: bytes allocated by a data-dependent make are bounded by the expression
-			env := x.newEnv(x.Top, nil, x.topContract, x.topArgs, st, st)
-			if bound, err := env.intArg(x.allocBound.Expr, 128); err == nil {
-				sz := types.SizesFor("gc", "amd64").Sizeof(elem)
-				if sz < 1 {
-					sz = 1
-				}
-				bytesT := bvBin("bvmul", ZeroExt(cp, 128), BVInt(sz, 128))
-				x.obligation(fr, ins, "allocbound", st.PC, bvCmp("bvule", bytesT, bound), fmt.Sprintf("bytes allocated (%d per element) exceed the declared bound %s", sz, x.allocBound.Text))
-			} else {
-				return fmt.Errorf("opt alloc: %v", err)
+			sz := types.SizesFor("gc", "amd64").Sizeof(elem)
+			if sz < 1 {
+				sz = 1
 			}
+			prop, err := x.allocBoundProp(st, cp, sz)
+			if err != nil {
+				return err
+			}
+			x.obligation(fr, ins, "allocbound", st.PC, Implies(ok, prop), fmt.Sprintf("bytes allocated (%d per element) exceed the declared bound %s", sz, x.allocBound.Text))
 		}
 	}
 	x.C.Assume(Implies(x.absPC(st.PC),ok), "continuing past make check")
 	ref := x.AllocBacking(st, elem, nil)
 	fr.Env[ins] = TV{T: x.C.Name(ins.Name(), MkSlice(ref, BVInt(0, 64), ln, cp)), Typ: ins.Type()}
 	return nil
+}
+
+// allocBoundProp: `count` elements of `sz` bytes stay within the byte bound declared by `opt alloc=<expr>`
+// (count is a 64-bit term known to be at most 2^40). When the bound has the shape K*R + K0 with literal K >= sz and K0,
+// the multiplication-free sufficient condition count <= R + K0/sz is used instead (count*sz <= R*sz + K0 <= R*K + K0).
+func (x *Exec) allocBoundProp(st *State, count Term, sz int64) (Term, error) {
+	if sz >= 1<<20 {
+		return Term{}, unsupported("allocation of elements of %d bytes", sz)
+	}
+	env := x.newEnv(x.Top, nil, x.topContract, x.topArgs, st, st)
+	if add, ok := x.allocBound.Expr.(*ast.BinaryExpr); ok && add.Op == token.ADD {
+		if mul, ok := add.X.(*ast.BinaryExpr); ok && mul.Op == token.MUL {
+			kl, ok1 := mul.X.(*ast.BasicLit)
+			k0l, ok2 := add.Y.(*ast.BasicLit)
+			if ok1 && ok2 {
+				k, err1 := strconv.ParseInt(kl.Value, 0, 64)
+				k0, err2 := strconv.ParseInt(k0l.Value, 0, 64)
+				if err1 == nil && err2 == nil && k >= sz && k0 >= 0 && k < 1<<20 && k0 < 1<<40 {
+					r, err := env.intArg(mul.Y, 64)
+					if err != nil {
+						return Term{}, fmt.Errorf("opt alloc: %v", err)
+					}
+					return And(bvCmp("bvule", r, BVUint(1<<40, 64)), bvCmp("bvule", count, bvBin("bvadd", r, BVInt(k0/sz, 64)))), nil
+				}
+			}
+		}
+	}
+	bound, err := env.intArg(x.allocBound.Expr, 64)
+	if err != nil {
+		return Term{}, fmt.Errorf("opt alloc: %v", err)
+	}
+	// 64-bit arithmetic is exact: count <= 2^40 and sz < 2^20
+	return bvCmp("bvule", bvBin("bvmul", count, BVInt(sz, 64)), bound), nil
 }
 
 func (x *Exec) sliceOp(fr *Frame, st *State, ins *ssa.Slice) error {
